@@ -273,6 +273,15 @@ func c03Strings(level int) [][]byte {
 
 	add(nil)
 
+	// lengths that are 1, 33 or 65 modulo 2^8 or 2^16 (a length carried in a narrow integer would wrap), and neighbours
+	for _, l := range []int{255, 256, 257, 288, 289, 290, 320, 321, 322, 65536, 65537, 65569, 65601} {
+		for _, v := range [][]byte{ref.Enc(g), ref.EncUncompressed(g), {0}} {
+			b := make([]byte, l)
+			copy(b, v)
+			add(b)
+		}
+	}
+
 	for _, p := range prefixes {
 		add([]byte{p})
 	}
